@@ -122,9 +122,14 @@ IntTypes == << [name |-> "bool",   lo |-> 0,         hi |-> 1],
                [name |-> "uint16", lo |-> 0,         hi |-> 65535],
                [name |-> "int32",  lo |-> 0 - 2147483647, hi |-> 2147483647],
                [name |-> "int64",  lo |-> 0 - 2147483647, hi |-> 2147483647] >>   \* at least TLC's own range
-FloatTypes == << [name |-> "float16", mant |-> 2048,     cplx |-> 0],
-                 [name |-> "float32", mant |-> 16777216, cplx |-> 0],
-                 [name |-> "complex64", mant |-> 16777216, cplx |-> 1] >>
+FloatTypes == << [name |-> "float16",   mant |-> 2048,     cplx |-> 0, ulp |-> <<1, 1024>>],
+                 [name |-> "float32",   mant |-> 16777216, cplx |-> 0, ulp |-> <<1, 8388608>>],
+                 [name |-> "complex64", mant |-> 16777216, cplx |-> 1, ulp |-> <<1, 8388608>>] >>
+\* The definition's own products and sums are then exact in the type, but an implementation may reach the same
+\* numbers by other arithmetic in the precision of its input (e.g. a Fourier transform, whose rounding at the
+\* longest lags is amplified by about T): a series rendered in a floating type is compared at 64 T ulp of that
+\* type (at most 1/16) - coarse, and still far below the effect of a wrong branch, pair or conjugate.
+FloatTol(T, ft) == LET t == RMul(<<64 * T, 1>>, ft.ulp) IN IF RLt(t, <<1, 16>>) THEN t ELSE <<1, 16>>
 
 LeafSet(s) ==          \* all Gaussian-integer leaves of the series
   UNION { UNION { IF s.rank = 0 THEN {s.val[f][i]}
@@ -170,8 +175,10 @@ FloatReps(s) ==
   LET b == AbsBound(s)
       c == IF IsReal(s) THEN 0 ELSE 1
   IN  SelectSeq([j \in 1..Len(FloatTypes) |->
-                   IF FloatTypes[j].cplx = c /\ b < FloatTypes[j].mant THEN FloatTypes[j].name ELSE ""],
-                LAMBDA n : n # "")
+                   IF FloatTypes[j].cplx = c /\ b < FloatTypes[j].mant
+                   THEN [dt |-> FloatTypes[j].name, tol |-> QR(FloatTol(s.T, FloatTypes[j]))]
+                   ELSE [dt |-> "", tol |-> I(0)]],
+                LAMBDA r : r.dt # "")
 
 \* ---- clauses ----
 CountsPerLag(s, st) ==
